@@ -496,6 +496,10 @@ var simplePatternsOnly bool
 
 func resetTermTables() {
 	simplePatternsOnly = false
+	// names of bound variables carry this counter: restarting it per function makes the query
+	// text of one function independent of every other function and contract (stable hashes
+	// for the result cache and the solver hints)
+	freshCounter = 0
 	defOf = map[string]*Term{}
 	belowBase = map[string]bool{}
 }
